@@ -106,7 +106,9 @@ def main(argv=None):
             return 2
         print(f"interpreter {sys.version.split()[0]}, repo {model.REPO}, "
               f"{len(proj.modules)} modules, {len(proj.all_functions)} functions, {len(proj.all_classes)} classes")
-        return 0
+        from .selftest import features
+
+        return features.main()
     if ns.cmd == "selftest":
         from .selftest import runner
 
